@@ -87,7 +87,7 @@ func casePorts(c *kit.Ctx, r *kit.Rand) {
 	conflict := u.Conflicts(p, scheduling.GetHostPorts(p)) != nil
 	d := sk.DumpPod(p)
 	c.Count(fmt.Sprintf("A.portconflict=%v", conflict))
-	c.AddCase(fmt.Sprintf("(CPorts %s %s %s %s)", gUsage(dumpUsage(u)), kit.GStr(d.Key), kit.GListOf(d.Ports, gHP), kit.GBool(conflict)),
+	c.AddCase(fmt.Sprintf("(CPorts %s %s %s %s)", gUsage(dumpUsage(u)), gs(d.Key), kit.GListOf(d.Ports, gHP), kit.GBool(conflict)),
 		map[string]interface{}{"kind": "HostPortUsage.Conflicts", "usage": dumpUsage(u), "pod": d.Key, "ports": d.Ports, "conflict": conflict}, fmt.Sprintf("ports|%v|%v", dumpUsage(u), d.Ports))
 }
 
@@ -279,7 +279,7 @@ func caseNC(c *kit.Ctx, r *kit.Rand) {
 	groups := psched.VerifC01BuildDaemonOverheadGroups(ctx, []*psched.NodeClaimTemplate{nct}, dpods)[nct]
 	nc := psched.NewNodeClaim(nct, topo, groups, pre, psched.NewReservationManager(itsMap), psched.ReservedOfferingModeFallback)
 	n0 := fmt.Sprintf("(mkNC %s %s %s %s %s [])", kit.GListOf(sk.DumpTaints(nc.Spec.Taints), gTaint), gReqs(sk.DumpReqs(nc.Requirements)),
-		kit.GStrs(names(pre)), gRL(sk.Milli(nc.Spec.Resources.Requests)), kit.GListOf(dumpGroups(nc.VerifC01DaemonGroups()), gGroup))
+		gss(names(pre)), gRL(sk.Milli(nc.Spec.Resources.Requests)), kit.GListOf(dumpGroups(nc.VerifC01DaemonGroups()), gGroup))
 	type stepJ struct {
 		Pod    sk.PodDump  `json:"pod"`
 		Relax  bool        `json:"relaxMinValues"`
@@ -307,14 +307,14 @@ func caseNC(c *kit.Ctx, r *kit.Rand) {
 			nc.Add(ctx, q, pd, reqs, its, ofs, res, nil)
 			okCount++
 			c.Count("A.nc.ok")
-			obs = fmt.Sprintf("(NOk %s %s %s)", gReqs(sk.DumpReqs(reqs)), kit.GStrs(names(its)), gRL(sk.Milli(nc.Spec.Resources.Requests)))
+			obs = fmt.Sprintf("(NOk %s %s %s)", gReqs(sk.DumpReqs(reqs)), gss(names(its)), gRL(sk.Milli(nc.Spec.Resources.Requests)))
 			jr = map[string]interface{}{"requirements": sk.DumpReqs(reqs), "instanceTypes": names(its), "requests": sk.Milli(nc.Spec.Resources.Requests)}
 		}
 		steps = append(steps, fmt.Sprintf("(%s, %s, %s)", gPod(d), kit.GBool(relax), obs))
 		js = append(js, stepJ{Pod: d, Relax: relax, Result: jr})
 	}
 	c.Count(fmt.Sprintf("A.nc.pods-on-claim=%d", okCount))
-	c.AddCase(fmt.Sprintf("(CNC %s %s %s %s %s)", kit.GStrs(wk), kit.GListOf(cat, gIT), kit.GBool(all), n0, kit.GList(steps)),
+	c.AddCase(fmt.Sprintf("(CNC %s %s %s %s %s)", gWK(wk), kit.GListOf(cat, gIT), kit.GBool(all), n0, kit.GList(steps)),
 		map[string]interface{}{"kind": "NodeClaim.CanAdd/Add", "respectPreferences": all, "bestEffortMinValues": bestEffort, "catalog": cat,
 			"templateRequirements": sk.DumpReqs(nc.Requirements), "taints": sk.DumpTaints(nc.Spec.Taints), "groups": dumpGroups(groups), "steps": js},
 		fmt.Sprintf("nc|%s", strings.Join(steps, "|")))
@@ -336,11 +336,11 @@ func emitFilter(c *kit.Ctx, wk []string, cat []sk.ITDump, elig []string, reqs sk
 	}
 	var us []string
 	for _, k := range kit.SortedKeys(unsat) {
-		us = append(us, kit.GPair(kit.GStr(k), kit.GZ(int64(unsat[k]))))
+		us = append(us, kit.GPair(gs(k), kit.GZ(int64(unsat[k]))))
 	}
 	c.Count(fmt.Sprintf("A.filter.err=%v.minValues=%v", isErr, mvErr))
-	c.AddCase(fmt.Sprintf("(CFilter %s %s %s %s %s %s %s %s %s %s %s %s)", kit.GStrs(wk), kit.GListOf(cat, gIT), kit.GStrs(elig), gReqs(reqs), kit.GStr(who), kit.GListOf(ports, gHP),
-		kit.GListOf(groups, gGroup), gRL(total), kit.GBool(relax), kit.GStrs(names(rem)), kit.GList(us), e),
+	c.AddCase(fmt.Sprintf("(CFilter %s %s %s %s %s %s %s %s %s %s %s %s)", gWK(wk), kit.GListOf(cat, gIT), gss(elig), gReqs(reqs), gs(who), kit.GListOf(ports, gHP),
+		kit.GListOf(groups, gGroup), gRL(total), kit.GBool(relax), gss(names(rem)), kit.GList(us), e),
 		map[string]interface{}{"kind": "filterInstanceTypesByRequirements", "requirements": reqs, "groups": groups, "total": total, "relaxMinValues": relax,
 			"remaining": names(rem), "unsatisfiable": unsat, "error": isErr, "minValuesError": mvErr}, fmt.Sprintf("filter|%v|%v|%v", reqs, total, relax))
 }
